@@ -117,6 +117,30 @@ def special(ctx):
             n += 1
         finally:
             w.cleanup()
+        # (3) a fatal error while the item is being archived (a read of one of its files fails): the run ends there, but
+        # the item's `after` hook still runs, once; later items contribute nothing
+        w = hist.World(ctx, 6200 + i, rng, nitems=2)
+        try:
+            victim = os.path.join(w.items[0], 'victim')
+            w.write(victim, 9, [1000, 20000, 70000][i % 3])
+            w.write(os.path.join(w.items[1], 'other'), 10, 50)
+            log = os.path.join(w.base, 'hooks.log')
+            items = [{'path': it, 'before': 'echo b%d >> %s' % (k, log), 'after': 'echo a%d >> %s' % (k, log)} for k, it in enumerate(w.items)]
+            store.write_config(w.cfg, 'b', w.root, items, 2, 2)
+            w.now += 10
+            k = 1 + i % 3
+            r = store.run_vsb(ctx, ['-c', w.cfg, 'backup', 'b'], now=w.now,
+                              shim_env={'FAULT': 'read@%s=EIO@%d' % (os.path.realpath(victim), k), 'WATCH': os.path.realpath(w.items[0])})
+            ran = open(log).read().split() if os.path.exists(log) else []
+            case = {'scenario': 'fatal-error-mid-item', 'index': i, 'read': k, 'hooks': ran, 'rc': r.rc}
+            if r.rc == 0:
+                ctx.violation('runtime', 'the injected read fault did not make the run fail', {'case': case}, found_input=False)
+            elif ran != ['b0', 'a0']:
+                ctx.violation('property', 'a fatal error while item 0 was archived: hooks executed %s, expected before and after of item 0, once each, and nothing of item 1' % ran,
+                              {'case': case, 'errors': r.errors()[:2]})
+            n += 1
+        finally:
+            w.cleanup()
     return n
 
 
